@@ -196,3 +196,284 @@ def run(chk):
     chk.extra["may_relocate_functions"] = len(S.may_relocate)
     _stale_vm(chk, prog, S)
     _stale_argv(chk, prog, S)
+
+
+# ------------------------------------------------------------------------------------------------
+GC_RECORDS = ("JanetFiber", "JanetFunction", "JanetFuncDef", "JanetFuncEnv", "JanetArray", "JanetTable", "JanetBuffer",
+              "JanetStream", "JanetChannel", "JanetTupleHead", "JanetStructHead", "JanetStringHead", "JanetAbstractHead")
+REF_TYPEDEFS = ("Janet", "JanetString", "JanetSymbol", "JanetKeyword", "JanetTuple", "JanetStruct", "JanetAbstract")
+
+
+def ref_bearing(f):
+    """does a record field (dict n,t,ct) possibly hold a reference to collectable memory?"""
+    t = f["t"].replace("const ", "").replace("volatile ", "").strip()
+    base = t.replace("*", "").replace("[]", "").strip()
+    if base in REF_TYPEDEFS:
+        return True
+    if base in ("JanetKV",) and "*" in t:
+        return True
+    if base in GC_RECORDS and ("*" in t or "[" in t):
+        return True
+    return False
+
+
+# record -> (mark function, {field: reason it need not be read there})
+MARK_TABLE = {
+    "JanetFiber": ("janet_mark_fiber", {}),
+    "JanetStackFrame": ("janet_mark_fiber", {}),
+    "JanetFunction": ("janet_mark_function", {}),
+    "JanetFuncDef": ("janet_mark_funcdef", {}),
+    "JanetArray": ("janet_mark_array", {}),
+    "JanetTable": ("janet_mark_table", {}),
+    "JanetSymbolMap": ("janet_mark_funcdef", {}),
+    "JanetTask": ("janet_ev_mark", {}),
+    "JanetTimeout": ("janet_ev_mark", {}),
+}
+# reference-bearing JanetVM fields that are not marked by the collector, with reason
+VM_EXCEPTIONS = {
+    "fiber": "the running fiber is root_fiber or reachable from it through child links (marked via root_fiber)",
+    "return_reg": "points at a Janet in a JanetTryState on the C stack, not at collectable memory",
+    "roots": "the root array itself; its elements are marked one by one",
+    "cache": "the symbol cache is weak by design: dead symbols remove themselves (janet_symbol_deinit)",
+}
+
+
+def _mark_rule(chk, prog):
+    rule = "C01-MARK"
+    chk.rule(rule, "every reference-bearing field of every heap record / VM root / abstract payload is visited by its mark function")
+    gc = prog.tus["gc.c"]
+    for rec, (mname, exc) in sorted(MARK_TABLE.items()):
+        r = prog.records.get(rec)
+        if r is None:
+            raise AnalysisBroken("record %s not found" % rec)
+        fn = prog.func(mname, "gc.c") or prog.func(mname, "ev.c")
+        if fn is None:
+            raise AnalysisBroken("mark function %s not found" % mname)
+        chk.analysed(fn)
+        read = set(n.field for n in fn.nodes if n.k == "mem" and n.rec == rec)
+        for f in r["fields"]:
+            if not ref_bearing(f):
+                continue
+            chk.instance(rule)
+            if f["n"] in exc:
+                chk.exception(rule, "%s.%s" % (rec, f["n"]), exc[f["n"]])
+                chk.ok(rule, "%s.%s (exception)" % (rec, f["n"]))
+            elif f["n"] in read:
+                chk.ok(rule, "%s.%s visited by %s" % (rec, f["n"], mname))
+            else:
+                chk.violation(rule, fn.tu.name, mname, "%s.%s" % (rec, f["n"]), fn.loc,
+                              "%s does not visit %s.%s (%s): an object reachable only through it is freed while in use" % (
+                                  mname, rec, f["n"], f["t"]))
+    # JanetFuncEnv: both arms of the union
+    fe = prog.need_func("janet_mark_funcenv", "gc.c")
+    arms = set(n.field for n in fe.nodes if n.k == "mem" and n.field in ("fiber", "values"))
+    for arm in ("fiber", "values"):
+        chk.instance(rule)
+        if arm in arms:
+            chk.ok(rule, "JanetFuncEnv.as.%s visited" % arm)
+        else:
+            chk.violation(rule, "gc.c", "janet_mark_funcenv", "JanetFuncEnv.as.%s" % arm, fe.loc, "janet_mark_funcenv does not visit as.%s" % arm)
+    # JanetVM roots
+    col = prog.need_func("janet_collect", "gc.c")
+    evm = prog.need_func("janet_ev_mark", "ev.c")
+    marked = set(n.field for f in (col, evm) for n in f.nodes if n.k == "mem" and n.rec == "JanetVM")
+    vm = prog.records["JanetVM"]
+    for f in vm["fields"]:
+        t = f["t"].replace("const ", "").strip()
+        isref = ref_bearing(f) or t in ("JanetTimeout *",) or (t == "JanetQueue" and f["n"] == "spawn")
+        if not isref:
+            continue
+        chk.instance(rule)
+        name = f["n"]
+        if name in VM_EXCEPTIONS:
+            chk.exception(rule, "JanetVM.%s" % name, VM_EXCEPTIONS[name])
+            chk.ok(rule, "JanetVM.%s (exception)" % name)
+            continue
+        if name in marked:
+            chk.ok(rule, "JanetVM.%s marked by janet_collect / janet_ev_mark" % name)
+            continue
+        # rooted where assigned?
+        assigns = []
+        for fn in prog.all_funcs():
+            for n in fn.nodes:
+                if n.k == "asg" and n.op == "=" and is_mem(n.kids[0], name, "JanetVM") and strip_casts(n.kids[1]).v != 0:
+                    assigns.append((fn, n))
+        unrooted = [(fn, n) for fn, n in assigns if not fn.calls("janet_gcroot")]
+        if assigns and not unrooted:
+            chk.ok(rule, "JanetVM.%s rooted with janet_gcroot wherever it is assigned" % name)
+        else:
+            fn, n = (unrooted or assigns or [(col, col.body)])[0]
+            chk.violation(rule, fn.tu.name, fn.name, "JanetVM.%s" % name, n.loc,
+                          "janet_vm.%s holds a collectable object but is neither marked by janet_collect nor rooted where it is "
+                          "assigned (`%s`): the next collection frees it while the VM still uses it" % (name, n.text()[:60]))
+    # abstract payloads
+    from rules.c03 import abstract_types
+    payload = {}
+    for fn in prog.all_funcs():
+        for c in fn.calls("janet_abstract", "janet_abstract_threaded", "janet_unmarshal_abstract", "janet_unmarshal_abstract_threaded",
+                          "janet_abstract_begin"):
+            ty = None
+            for x in c.args[0].walk():
+                if x.k == "ref" and x.d.get("d") == "gvar":
+                    ty = x.name
+            sz = c.args[-1]
+            recname = None
+            if sz.k == "sizeof":
+                at = sz.d.get("argt")
+                if at is not None:
+                    recname = fn.tu.types[at].replace("struct ", "")
+            if ty and recname in prog.records:
+                payload[ty] = recname
+    for tu, name, vals in abstract_types(prog):
+        recname = payload.get(name)
+        if recname is None:
+            continue
+        rec = prog.records[recname]
+        refs = [f for f in rec["fields"] if ref_bearing(f)]
+        if not refs:
+            continue
+        mv = vals.get("gcmark")
+        mname = mv.name if mv is not None and mv.k == "ref" else None
+        for f in refs:
+            chk.instance(rule)
+            if mname is None:
+                chk.violation(rule, tu.name, name, "%s.%s" % (recname, f["n"]), tu.file,
+                              "abstract type %s has no gcmark but its payload %s.%s (%s) references collectable memory" % (
+                                  name, recname, f["n"], f["t"]))
+                continue
+            mfn = prog.func(mname, tu)
+            # fields read in the mark hook or in a static helper it calls in the same unit
+            fns = [mfn] + [prog.func(c.callee, tu) for c in mfn.calls() if c.callee and prog.func(c.callee, tu) is not None
+                           and prog.func(c.callee, tu).tu is tu]
+            read = set(n.field for g in fns if g is not None for n in g.nodes if n.k == "mem" and n.rec == recname)
+            if f["n"] in read:
+                chk.ok(rule, "%s: %s.%s visited by %s" % (name, recname, f["n"], mname))
+            else:
+                chk.violation(rule, tu.name, mname, "%s.%s" % (recname, f["n"]), mfn.loc,
+                              "%s does not visit %s.%s (%s)" % (mname, recname, f["n"], f["t"]))
+    chk.floor(rule, 30)
+
+
+def _safepoint_rule(chk, prog, S):
+    rule = "C01-SAFEPOINT"
+    chk.rule(rule, "janet_collect is called only from the interpreter's safepoint and gccollect; janet_gclock/janet_gcunlock are paired")
+    for fn in prog.all_funcs():
+        for c in fn.calls("janet_collect"):
+            chk.instance(rule)
+            if fn.name == "run_vm" and c.in_macro("maybe_collect"):
+                chk.ok(rule, "run_vm safepoint (maybe_collect)")
+            elif fn.name == "janet_core_gccollect":
+                chk.ok(rule, "gccollect function")
+            else:
+                chk.violation(rule, fn.tu.name, fn.name, "janet_collect", c.loc,
+                              "janet_collect is called from %s: C code there may hold unrooted objects in locals" % fn.name)
+        locks = fn.calls("janet_gclock")
+        if locks and fn.name != "janet_gclock":
+            chk.analysed(fn)
+
+            def transfer(st, n):
+                if n.k == "call" and n.callee and prog.is_noreturn(n.callee):
+                    return None
+                if n.k == "call" and n.callee == "janet_gclock":
+                    return frozenset(["locked"])
+                if n.k == "call" and n.callee == "janet_gcunlock":
+                    return frozenset()
+                return st
+            IN, OUT = flow.forward(fn, frozenset(), transfer, lambda a, b: a | b)
+            st = IN.get(fn.exit)
+            chk.instance(rule)
+            if st:
+                chk.violation(rule, fn.tu.name, fn.name, "gclock", locks[0].loc,
+                              "%s can return with the collector still locked (janet_gcunlock missing on some path): no collection ever runs again" % fn.name)
+            else:
+                chk.ok(rule, "%s: janet_gclock released on every returning path" % fn.name)
+    # janet_call runs the interpreter under the lock
+    jc = prog.need_func("janet_call", "vm.c")
+    chk.instance(rule)
+    lk = [c.ln for c in jc.calls("janet_gclock")]
+    rv = [c.ln for c in jc.calls("run_vm")]
+    if lk and rv and min(lk) < min(rv):
+        chk.ok(rule, "janet_call locks the collector before re-entering the interpreter")
+    else:
+        chk.violation(rule, "vm.c", "janet_call", "lock-before-run", jc.loc,
+                      "janet_call re-enters run_vm without suspending collection: its C callers hold unrooted values")
+    chk.floor(rule, 6)
+
+
+def _nilfill_rule(chk, prog):
+    rule = "C01-NILFILL"
+    chk.rule(rule, "frame constructors nil-fill every newly exposed slot range before it becomes part of a frame")
+    for fname in ("janet_fiber_funcframe", "janet_fiber_funcframe_tail"):
+        fn = prog.need_func(fname, "fiber.c")
+        chk.analysed(fn)
+        # nil-fill loops: for (i = LO; i < HI; ...) fiber->data[i] = nil
+        loops = []
+        for n in fn.nodes:
+            if n.k == "for" and n.kids[1] is not None and n.kids[1].k == "bin" and n.kids[1].op == "<":
+                body = n.kids[3]
+                stores = [x for x in body.walk() if x.k == "asg"]
+                if len(stores) == 1 and stores[0].kids[0].k == "sub" and is_mem(strip_casts(stores[0].kids[0].kids[0]), "data", "JanetFiber") \
+                        and "janet_wrap_nil" in strip_casts(stores[0].kids[1]).macro_names():
+                    lo = n.kids[0]
+                    lo_txt = ""
+                    for x in lo.walk():
+                        if x.k == "asg":
+                            lo_txt = x.kids[1].text()
+                    loops.append((n, lo_txt, strip_casts(n.kids[1].kids[1]).text()))
+        loop_ids = {l[0].id: l for l in loops}
+
+        def transfer(st, n):
+            # a `for` statement node is not a CFG element; use its condition expression
+            for fid, (node, lo, hi) in loop_ids.items():
+                if n is node.kids[1]:
+                    return st | frozenset([("nil", lo, hi)])
+            return st
+        IN, OUT = flow.forward(fn, frozenset(), transfer, lambda a, b: a & b)
+        # (1) the success return has passed a fill up to the new frame top
+        for b, st in IN.items():
+            for n in fn.blocks[b].elems:
+                if n.k == "return" and n.kids and n.kids[0].v == 0:
+                    chk.instance(rule)
+                    tops = [f for f in st if f[0] == "nil" and ("nextstacktop" in f[2] or "nextframetop" in f[2])]
+                    if tops:
+                        chk.ok(rule, "%s: locals up to %s nil-filled before the frame is entered" % (fname, tops[0][2]))
+                    else:
+                        chk.violation(rule, "fiber.c", fname, "locals", n.loc,
+                                      "%s returns success without having nil-filled the slots up to the new frame top: the "
+                                      "collector and the function see stale values in unset locals" % fname)
+                # (2) a store beyond the pushed arguments is preceded by a fill starting at the old stack top
+                if n.k == "asg" and n.kids[0].k == "sub" and is_mem(strip_casts(n.kids[0].kids[0]), "data", "JanetFiber"):
+                    idx = strip_casts(n.kids[0].kids[1])
+                    if idx.k == "ref" and idx.name == "tuplehead":
+                        # only on the arm where tuplehead >= top (no pushed argument occupies it)
+                        guard = None
+                        for a in n.ancestors():
+                            if a.k == "if" and any(is_ref(x, "tuplehead") for x in a.kids[0].walk()) and a.kids[0].k == "bin" and a.kids[0].op == ">=":
+                                inthen = any(y is n for y in a.kids[1].walk())
+                                guard = inthen
+                                break
+                        if guard:
+                            chk.instance(rule)
+                            fills = [f for f in st if f[0] == "nil" and "stacktop" in f[1]]
+                            if fills:
+                                chk.ok(rule, "%s: gap below the varargs slot nil-filled from %s" % (fname, fills[0][1]))
+                            else:
+                                chk.violation(rule, "fiber.c", fname, "vararg-gap", n.loc,
+                                              "%s stores the varargs tuple at `tuplehead` above the pushed arguments without nil-filling the "
+                                              "slots in between: missing optional parameters keep stale values" % fname)
+                st = transfer(st, n)
+    chk.floor(rule, 4)
+
+
+_run_prev = run
+
+
+def run(chk):   # noqa
+    prog = Program.load("default")
+    S = Summaries(prog)
+    chk.extra["may_relocate_functions"] = len(S.may_relocate)
+    _stale_vm(chk, prog, S)
+    _stale_argv(chk, prog, S)
+    _mark_rule(chk, prog)
+    _safepoint_rule(chk, prog, S)
+    _nilfill_rule(chk, prog)
